@@ -52,6 +52,20 @@ fn chain_removes(op: &Op) -> bool {
     }
 }
 
+/// How many elements a single-key call may have been relocating when its Hash panicked: up to
+/// R if a resize was in flight before the call (elements left in the old table) or the call
+/// itself started one (the main table changed, or the collection became split) - whichever
+/// step of the call did that -, none otherwise.
+fn relocating(before: (usize, usize, bool), after: &griddle::hash_map::VerifState) -> usize {
+    let (old_len, main_buckets, split) = before;
+    let grew = after.main_buckets != main_buckets || (after.split && !split);
+    if old_len > 0 || grew {
+        8
+    } else {
+        0
+    }
+}
+
 fn extra_legit(op: &Op) -> BTreeMap<u32, Vec<u32>> {
     let mut m: BTreeMap<u32, Vec<u32>> = BTreeMap::new();
     if let Op::Extend { items, .. } | Op::FromIter { items, .. } = op {
@@ -90,7 +104,7 @@ fn judge<K: KeyT, V: ValT>(
     site: Site,
     before: &(Vec<MapModel>, Vec<SetModel>),
     after: &(Vec<MapModel>, Vec<SetModel>),
-    old_len_before: &[usize],
+    old_len_before: &[(usize, usize, bool)],
     chain_removed: Option<(usize, u32)>,
     partial: &BTreeMap<u32, Vec<u32>>,
 ) -> Vec<Anomaly> {
@@ -184,7 +198,7 @@ fn judge<K: KeyT, V: ValT>(
                     if bulk {
                         b.len()
                     } else {
-                        old_len_before[mi].min(8)
+                        relocating(old_len_before[mi], &slot.m.verif_state())
                     }
                 }
                 _ => {
@@ -224,6 +238,7 @@ fn judge<K: KeyT, V: ValT>(
         let st = slot.m.verif_state();
         slot.countdown = if st.split && st.old_len > 0 { Some(((st.old_len + st.r - 1) / st.r.max(1)) as u64) } else { None };
     }
+    let n_maps = w.maps.len();
     for si in 0..w.sets.len() {
         let slot = &mut w.sets[si];
         let r = call(|| {
@@ -281,9 +296,9 @@ fn judge<K: KeyT, V: ValT>(
                     out.push(anomaly("fault-illegitimate-value", idx, op, format!("set {}: element {} appeared from nowhere", si, kv)));
                 }
             }
-            let old_len = old_len_before[w.maps.len() + si];
+            let reloc = relocating(old_len_before[n_maps + si], &slot.s.verif_state());
             let bulk = shrink || matches!(op, Op::SReserve { .. } | Op::STryReserve { .. } | Op::SExtend { .. } | Op::SFromIter { .. } | Op::SCloneTo { .. } | Op::SCloneFrom { .. });
-            let allowed = if site == Site::Hash { if bulk { b.len() } else { old_len.min(8) } } else { 0 };
+            let allowed = if site == Site::Hash { if bulk { b.len() } else { reloc } } else { 0 };
             if lost > allowed {
                 out.push(anomaly("fault-lost-elements", idx, op, format!("set {}: {} elements lost by a panic at {} (allowed {})", si, lost, site.name(), allowed)));
             }
@@ -394,12 +409,13 @@ pub fn run_c07<K: KeyT, V: ValT>(spec: &RunSpec, step_rng_seed: u64) -> RunOutco
                 None => return out,
             };
             let before = snapshot(&w);
-            let old_lens: Vec<usize> = w
+            // (old-table length, main bucket count, split) before the call, per collection
+            let old_lens: Vec<(usize, usize, bool)> = w
                 .maps
                 .iter()
-                .map(|s| (s.m.verif_state(), s.m.len(), s.m.capacity()))
-                .chain(w.sets.iter().map(|s| (s.s.verif_state(), s.s.len(), s.s.capacity())))
-                .map(|(st, len, cap)| if st.split { st.old_len } else if len == cap { len } else { 0 })
+                .map(|s| s.m.verif_state())
+                .chain(w.sets.iter().map(|s| s.s.verif_state()))
+                .map(|st| (if st.split { st.old_len } else { 0 }, st.main_buckets, st.split))
                 .collect();
             let chain_removed: Option<(usize, u32)> = match op {
                 Op::Entry { m, k, .. } | Op::RawMut { m, k, .. } if chain_removes(op) => Some((*m as usize, w.maps[*m as usize].resolve_key(k))),
